@@ -4,6 +4,7 @@ import ConfModel.Model.Builder
 import ConfModel.Spec.Handoff
 import ConfModel.Spec.HandoffGlue
 import ConfModel.Model.H2Teardown
+import ConfModel.Driver.C16Init
 namespace ConfModel.Driver.C16
 open Lean ConfModel.Driver ConfModel ConfModel.Handoff
 
@@ -630,6 +631,7 @@ def handle : Handler := fun op inp impl =>
       { agree := okModel, holds := okSpec, nontrivial := lins.length > 1, model := toJson lins.length,
         why := if okSpec then "" else
           s!"collector got {gots.filter (fun g => !specOuts.contains g)}: no linearisation of the threads delivers that" }
+  | "glue" => C16Init.glueVerdict inp impl
   | _ => bad ("C16: unknown op " ++ op)
 
 end ConfModel.Driver.C16
